@@ -140,6 +140,7 @@ type Exec struct {
 	BranchQueries int
 	BranchSliceHops int
 	Lazy bool
+	callNames []string
 	// LazyMath: no feasibility queries on branches inside the pure arithmetic packages (see isMathFn)
 	LazyMath bool
 	ModelHits int
@@ -651,6 +652,8 @@ func (e *Exec) callFn(st *State, fn *ssa.Function, args []Value, env []Value, de
 		return []Outcome{{Kind: OutError, St: st, Why: "no body for " + fn.String()}}
 	}
 	e.FuncsSeen[fn]++
+	e.callNames = append(e.callNames, fn.String())
+	defer func() { e.callNames = e.callNames[:len(e.callNames)-1] }()
 	if os.Getenv("GOSYM_CALLS") != "" && depth <= 4 {
 		t0 := time.Now()
 		defer func() {
@@ -716,7 +719,11 @@ func (e *Exec) runFrame(f *Frame) (done []Outcome, more []*Frame) {
 				if f.block != nil && f.pc < len(f.block.Instrs) {
 					pos = e.Prog.Fset.Position(f.block.Instrs[f.pc].Pos()).String()
 				}
-				done = append(done, Outcome{Kind: OutError, St: f.st, Why: fmt.Sprintf("%s [in %s %s]", ee.msg, f.fn.String(), pos)})
+				why := fmt.Sprintf("%s [in %s %s]", ee.msg, f.fn.String(), pos)
+				if os.Getenv("GOSYM_ERRSTACK") != "" {
+					why += " stack: " + strings.Join(e.callNames, " > ")
+				}
+				done = append(done, Outcome{Kind: OutError, St: f.st, Why: why})
 				more = nil
 				return
 			}
